@@ -145,7 +145,42 @@ struct Msg {
     fields: Vec<FieldSpec>,
 }
 
+fn use_leaves(t: &syn::UseTree, prefix: &str, out: &mut Vec<(String, String)>) {
+    // (exported name, path as written)
+    match t {
+        syn::UseTree::Path(p) => {
+            let pre = if prefix.is_empty() { p.ident.to_string() } else { format!("{}::{}", prefix, p.ident) };
+            use_leaves(&p.tree, &pre, out);
+        }
+        syn::UseTree::Name(n) => out.push((n.ident.to_string(), if prefix.is_empty() { n.ident.to_string() } else { format!("{}::{}", prefix, n.ident) })),
+        syn::UseTree::Rename(r) => out.push((r.rename.to_string(), if prefix.is_empty() { r.ident.to_string() } else { format!("{}::{}", prefix, r.ident) })),
+        syn::UseTree::Group(g) => {
+            for it in &g.items {
+                use_leaves(it, prefix, out);
+            }
+        }
+        syn::UseTree::Glob(_) => out.push(("*".to_string(), format!("{}::*", prefix))),
+    }
+}
+
+thread_local! {
+    // `pub use` re-exports found in the generated files: (module rust path, package, exported name, target path as written, file, line)
+    static USES: std::cell::RefCell<Vec<(String, String, String, String, String, usize)>> = std::cell::RefCell::new(vec![]);
+}
+
 fn walk(items: &[Item], pkg: &str, scope_fqn: &str, rust_path: &str, file: &str, use_url: bool, out: &mut Vec<Msg>, nonderive: &mut Vec<String>) {
+    for it in items {
+        if let Item::Use(u) = it {
+            if matches!(u.vis, syn::Visibility::Public(_)) && !use_url {
+                let mut ls = vec![];
+                use_leaves(&u.tree, "", &mut ls);
+                for (name, target) in ls {
+                    let scope = if scope_fqn.is_empty() { pkg.to_string() } else { scope_fqn.to_string() };
+                    USES.with(|v| v.borrow_mut().push((rust_path.to_string(), scope, name, target.replace("r#", ""), file.to_string(), u.use_token.span.start().line)));
+                }
+            }
+        }
+    }
     // names of messages in this scope, to resolve `pub mod <snake(parent)>` nesting
     let mut parents: Vec<(String, String)> = vec![]; // (snake name, fqn)
     for it in items {
@@ -418,6 +453,8 @@ fn main() {
     let _ = write!(o, "\"includes\":[{}],", incs.iter().map(|i| format!("{{\"module\":{},\"file\":{},\"line\":{}}}", esc(&i.module), esc(&i.file), i.line)).collect::<Vec<_>>().join(","));
     let _ = write!(o, "\"type_urls\":[{}],", urls.iter().map(|u| format!("{{\"rust_path\":{},\"url\":{},\"line\":{}}}", esc(&u.0), esc(&u.1), u.2)).collect::<Vec<_>>().join(","));
     let _ = write!(o, "\"nonderive_structs\":[{}],", nonderive.iter().map(|e| esc(e)).collect::<Vec<_>>().join(","));
+    let uses: Vec<String> = USES.with(|v| v.borrow().iter().map(|u| format!("{{\"module\":{},\"scope\":{},\"name\":{},\"target\":{},\"file\":{},\"line\":{}}}", esc(&u.0), esc(&u.1), esc(&u.2), esc(&u.3), esc(&u.4), u.5)).collect());
+    let _ = write!(o, "\"uses\":[{}],", uses.join(","));
     let _ = write!(o, "\"cfg\":[{}],", cfgs.iter().map(|c| format!("{{\"file\":{},\"line\":{},\"text\":{}}}", esc(&c.0), c.1, esc(&c.2))).collect::<Vec<_>>().join(","));
     let _ = write!(o, "\"tokenfactory\":{},", tf);
     let _ = write!(o, "\"local\":{},", msgs_json(&local));
